@@ -1,0 +1,12 @@
+//go:build verif
+
+package stringSplitter
+
+//@ func (*Splitter).Next
+//@   requires len(s.Delim) >= 1
+//@   requires s.next <= len(s.S)
+//@   modifies s.next
+//@   ensures old(s.next) < 0 ==> ret == "" && s.next == old(s.next)
+//@   ensures old(s.next) >= 0 && str_index(s.S[old(s.next):], s.Delim) < 0 ==> ret == s.S[old(s.next):] && s.next == -1
+//@   ensures old(s.next) >= 0 && str_index(s.S[old(s.next):], s.Delim) >= 0 ==> ret == s.S[old(s.next):old(s.next) + str_index(s.S[old(s.next):], s.Delim)]
+//@   ensures old(s.next) >= 0 && str_index(s.S[old(s.next):], s.Delim) >= 0 ==> s.next == old(s.next) + str_index(s.S[old(s.next):], s.Delim) + len(s.Delim)
